@@ -644,6 +644,9 @@ int verify_utc(struct jls_rd_s *rd, const model_t *m, int sig, const verify_opts
                 long double err = fabsl((long double) ((__int128) ts - exact));
                 if (err > tol) {
                     snprintf(key, sizeof(key), "conv|%s|%s", anchor_hit ? "anchor-not-exact" : (sid < x[0] ? "extrapolate-before" : sid > x[n - 1] ? "extrapolate-after" : "interpolate"), fk(o));
+                    { size_t lo2 = 0; if (n > 1) { if (sid <= x[0]) lo2 = 0; else if (sid >= x[n - 1]) lo2 = n - 2; else for (size_t i = 0; i + 1 < n; ++i) if (sid >= x[i] && sid <= x[i + 1]) { lo2 = i; break; } }
+                      snprintf(wj, sizeof(wj), "{\"signal\":%d,\"anchors\":%zu,\"rate\":%u,\"sample_id\":%lld,\"segment\":%zu,\"xa\":%lld,\"ya\":%lld,\"xb\":%lld,\"yb\":%lld}", sig, n, def.sample_rate, (long long) sid, lo2,
+                               (long long) x[lo2], (long long) y[lo2], (long long) (n > 1 ? x[lo2 + 1] : 0), (long long) (n > 1 ? y[lo2 + 1] : 0)); }
                     v_violation("C12", key, wj, "sample id %lld -> time %lld, exact %lld (error %.1Lf ticks, allowed %.3Lf)", (long long) sid, (long long) ts, (long long) exact, err, tol);
                     bad = 1; break;
                 }
